@@ -770,4 +770,5 @@ static void cc_gen(Ctx& ctx) {
     ctx.rc("random", ctx.by_tier(40000, 300000), [&]() { return coh_geo(ctx).set("neg", pick(0, 1)).set("pow2", int(pick(0, 3) == 0)).set("swap", pick(0, 1)).set("seed", (long long)seed64()); });
 }
 
+VK_FRESH_THREADS;
 VK_MAIN("C13")
